@@ -26,6 +26,7 @@ INTS = ["x", "y", "<state>u", "<p>n", "<t>"]
 ARRS = ["a", "<state>b"]
 FUNCS = ["<func>f", "<func>g2", "<func>raise_h", "<func>arr_k", "<func>len_", "<func>p0"]
 LOOPVARS = ["i", "j"]
+ALIAS = [False]           # switched on for the oracle-only stream of programs that copy an array variable by name
 IMPLICIT = [False]        # switched on for the oracle-only stream of programs with implicit solves
 
 
@@ -59,6 +60,10 @@ def gen_stmt_kind(rng, pool_ints, pool_arrs):
         guess = rng.choice([["var", sv], ["var", sv], g.int_expr(1)])
         return ["implicit", [rng.choice(pool_ints + ["z", "w"])], [sv], [["bin", "rem", expr, ["int", 97]]],
                 [["guess", guess]], "newton"]
+    if ALIAS[0] and pool_arrs and rng.random() < 0.2:
+        # `x <- a`: in the interpreter x and a are then one NumPy array (the Coq model and the Fortran backend
+        # have value semantics); a later element write through either name changes both
+        return ["assign", rng.choice(pool_arrs + ["z"]), None, ["var", rng.choice(pool_arrs)], []]
     if c < 0.62:
         nloops = rng.choice([0, 0, 0, 0, 1, 1, 2])
         lvs = LOOPVARS[:nloops]
@@ -187,7 +192,8 @@ def small_scope(rep, maxlen, stride=1):
                 if col is not None:
                     o = {"kind": "fresh_name_collides", "name": col}
             if o is not None:
-                key = o["kind"] + (":known" if classify_known(o, prog, store) else "")
+                kf0 = classify_known(o, prog, store)
+                key = o["kind"] + (":known:" + kf0["class"] if kf0 else "")
                 if key not in failing or len(prog) < len(failing[key][0]):
                     failing[key] = (prog, store, o)
     return n, ns, failing
@@ -221,6 +227,11 @@ def build_program(rng, nstmts, real=True):
     def stmt():
         k = gen_stmt_kind(rng, pool_ints, pool_arrs)
         k = lang.kind_from_real(lang.kind_to_real(k))
+        if k[0] == "assign" and k[3][0] == "call":
+            # flattening may leave a bare call (call * 1): CodeBuilder.assign turns `x <- f(..)` into a function
+            # call statement and rejects subscripted / looped left-hand sides there; keep it an expression
+            k[3] = ["nary", "sum", [k[3], ["int", 1]]]
+            k = lang.kind_from_real(lang.kind_to_real(k))
         add_real(cb, k)
         prog.append(["stmt", k])
         budget[0] -= 1
@@ -595,7 +606,46 @@ def alpha_rename_loop_counters(prog):
     return out
 
 
+def alias_sites(prog):
+    """assignments whose right-hand side is a bare variable (the only way two names come to share an array)"""
+    return [i for i, c in enumerate(prog) if c[0] == "stmt" and c[1][0] == "assign" and c[1][2] is None
+            and not c[1][4] and c[1][3][0] == "var"]
+
+
+def copy_instead_of_alias(prog):
+    """the same program with every `x <- v` written `x <- v + 1 + -1` (a fresh array / the same number)"""
+    out = [list(c) for c in prog]
+    for i in alias_sites(prog):
+        k = list(out[i][1])
+        k[3] = ["nary", "sum", [k[3], ["int", 1], ["int", -1]]]
+        out[i] = ["stmt", k]
+    return out
+
+
+def classify_known_alias(o, prog, store):
+    """array_alias_in_place_write: the schedules differ, the program copies a variable by name, and with
+    those copies made real copies the real builder's schedules all agree."""
+    if not o or o.get("kind") != "schedule_differs" or not alias_sites(prog):
+        return None
+    prog2 = copy_instead_of_alias(prog)
+    try:
+        nm, cb2 = fresh_names(prog2)
+        o2, _ = oracle(random.Random(1), prog2, cb2, nm, store)
+    except Exception:  # noqa: BLE001
+        return None
+    if o2 is not None:
+        return None
+    for f in common.known_findings(PID):
+        if f.get("class") == "array_alias_in_place_write":
+            return f
+    return None
+
+
 def classify_known(o, prog, store):
+    return classify_known_loopvar(o, prog, store) or classify_known_alias(o, prog, store)
+
+
+def classify_known_loopvar(o, prog, store):
     """loop_counter_shadows_variable: the schedules differ, the program uses as loop counter a name
     that is also an ordinary variable (A3 violated), and with the counters renamed apart the real
     builder's schedules all agree again."""
@@ -701,6 +751,7 @@ def main(tier):
     for pi in range(nprog):
         n = rng.choice([2, 3, 4, 5, 6, 7, 9, 12])
         IMPLICIT[0] = (pi % 8 == 7)
+        ALIAS[0] = (pi % 8 == 3)
         try:
             prog, _cb = build_program(rng, n)
         except BuilderFailure as bf:
@@ -723,7 +774,8 @@ def main(tier):
         if o is None and col is not None:
             o = {"kind": "fresh_name_collides", "name": col}
         if o is not None:
-            key = o["kind"] + (":known" if classify_known(o, prog, store) else "")
+            kf0 = classify_known(o, prog, store)
+            key = o["kind"] + (":known:" + kf0["class"] if kf0 else "")
             if key not in failing or len(prog) < len(failing[key][0]):
                 failing[key] = (prog, store, o)
         built = read_builder(cb)
@@ -733,7 +785,8 @@ def main(tier):
         deps = [b["deps"] for b in built]
         orders = [list(range(nst))] + [random_extension(rng, deps) for _ in range(2)]
         runs = [(order, exec_schedule(stmts, order, store)) for order in orders]
-        if all(in_universe(r) for _, r in runs) and not any(b["kind"][0] == "implicit" for b in built):
+        if all(in_universe(r) for _, r in runs) and not any(b["kind"][0] == "implicit" for b in built) \
+                and not alias_sites(prog):
             univ = sorted(set(store) | set().union(*[stmt_vars(b["kind"]) | lang.expr_vars(b["cond"]) for b in built])
                           | {lv for b in built if b["kind"][0] == "assign" for lv, _, _ in b["kind"][4]}) \
                 if built else sorted(store)
